@@ -5,6 +5,7 @@ mod binder;
 mod common;
 mod drive_gateway;
 mod gateway;
+mod token;
 mod probe;
 
 use binder::make_binder;
@@ -112,19 +113,29 @@ fn replay_walk(module: &str, inst: &J, walk: &J) -> J {
             div["act"] = step["act"].clone();
             div["exp"] = step["exp"].clone();
             // control: re-run the prefix in a fresh world, then the control sequence
-            if let Some(ctrl) = step.get("control").and_then(|c| c.as_array()) {
-                let mut c = make_binder(module, inst, &walk["init"]);
-                for s in steps.iter().take(i) {
-                    c.exec(&s["act"]);
-                }
-                let mut ok = true;
-                for a in ctrl {
-                    let o = c.exec(a);
-                    if a["name"] != json!("Tick") {
-                        ok = o.ok;
+            // a "control" is a list of alternative action sequences; it passes if the code accepts any of them
+            if let Some(alts) = step.get("control").and_then(|c| c.as_array()) {
+                let alts: Vec<Vec<J>> = if alts.first().map(|x| x.is_array()).unwrap_or(false) {
+                    alts.iter().map(|x| x.as_array().unwrap().clone()).collect()
+                } else {
+                    vec![alts.clone()]
+                };
+                let mut any = false;
+                for ctrl in alts.iter() {
+                    let mut c = make_binder(module, inst, &walk["init"]);
+                    for s in steps.iter().take(i) {
+                        c.exec(&s["act"]);
                     }
+                    let mut ok = true;
+                    for a in ctrl {
+                        let o = c.exec(a);
+                        if a["name"] != json!("Tick") && a["name"] != json!("AdvanceLedger") {
+                            ok = o.ok;
+                        }
+                    }
+                    any = any || ok;
                 }
-                div["control_ok"] = json!(ok);
+                div["control_ok"] = json!(any);
             }
             return json!({"walk": walk["id"], "steps_run": i + 1, "divergence": div});
         }
